@@ -14,29 +14,46 @@ TOL = 1e-9
 
 def in_quantifier(n, peaks, troughs, rises, decays):
     """Alternating extrema at least two samples apart, inside the array, every supplied midpoint on its own flank (rise:
-    trough..peak, decay: peak..trough, at most one per flank).  Returns (ok, sorted extrema)."""
+    trough..peak, decay: peak..trough, at most one per flank).  A cyclepoint set may also begin or end with a midpoint: one
+    decay before a leading trough / rise before a leading peak, one decay after a final peak / rise after a final trough.
+    Returns (ok, sorted extrema, (first, last) cyclepoint of the whole set)."""
     ext = sorted([(p, 'p') for p in peaks] + [(t, 't') for t in troughs])
     if len(ext) < 2:
-        return False, ext
+        return False, ext, None
     for (x, kx), (y, ky) in zip(ext[:-1], ext[1:]):
         if kx == ky or y - x < 2:
-            return False, ext
+            return False, ext, None
     first, last = ext[0][0], ext[-1][0]
-    mids = (rises or []) + (decays or [])
-    if any(m < first or m > last for m in mids) or first < 0 or last >= n:
-        return False, ext
+    if first < 0 or last >= n:
+        return False, ext, None
+    span = [first, last]
     used = set()
     for lst, start_kind in ((rises, 't'), (decays, 'p')):
         for m in (lst or []):
+            if m < 0 or m >= n:
+                return False, ext, None
+            if m < first:
+                # leading midpoint: the flank that ends in the first extremum (rise -> peak, decay -> trough)
+                if 'lead' in used or ext[0][1] == start_kind:
+                    return False, ext, None
+                used.add('lead')
+                span[0] = min(span[0], m)
+                continue
+            if m > last:
+                if 'trail' in used or ext[-1][1] != start_kind:
+                    return False, ext, None
+                used.add('trail')
+                span[1] = max(span[1], m)
+                continue
             hit = None
             for fi, ((x, kx), (y, ky)) in enumerate(zip(ext[:-1], ext[1:])):
                 if kx == start_kind and x <= m <= y and fi not in used:
                     hit = fi
                     break
             if hit is None:
-                return False, ext
+                return False, ext, None
             used.add(hit)
-    return True, ext
+    return True, ext, tuple(span)
 
 
 def mon_phase(result, pre, *a, **k):
@@ -47,14 +64,18 @@ def mon_phase(result, pre, *a, **k):
     troughs = [int(v) for v in np.asarray(args['troughs']).tolist()]
     rises = None if args['rises'] is None else [int(v) for v in np.asarray(args['rises']).tolist()]
     decays = None if args['decays'] is None else [int(v) for v in np.asarray(args['decays']).tolist()]
-    ok, ext = in_quantifier(n, peaks, troughs, rises, decays)
+    ok, ext, span = in_quantifier(n, peaks, troughs, rises, decays)
     if not ok:
         count('C17:outside_quantifier')
         return
-    first, last = ext[0][0], ext[-1][0]
+    first, last = span
+    if first < ext[0][0]:
+        count('C17:leading_midpoint:gap=%d' % min(3, ext[0][0] - first))
+    if last > ext[-1][0]:
+        count('C17:trailing_midpoint:gap=%d' % min(3, last - ext[-1][0]))
     pha = np.asarray(result, dtype=float)
-    count('C17:last_cyclepoint=%s:to_end=%s' % (ext[-1][1], min(2, n - 1 - last)))
-    count('C17:first_cyclepoint=%s:from_start=%s' % (ext[0][1], min(2, first)))
+    count('C17:last_cyclepoint=%s:to_end=%s' % (ext[-1][1] if last == ext[-1][0] else 'm', min(2, n - 1 - last)))
+    count('C17:first_cyclepoint=%s:from_start=%s' % (ext[0][1] if first == ext[0][0] else 'm', min(2, first)))
     if len(pha) != n:
         violation(PROP, 'length', 'phase has %d values for %d samples' % (len(pha), n))
         return
@@ -64,7 +85,8 @@ def mon_phase(result, pre, *a, **k):
     if np.any(~np.isfinite(inside)):
         i = first + int(np.flatnonzero(~np.isfinite(inside))[0])
         allnan = bool(np.all(np.isnan(pha)))
-        violation(PROP, 'nan-inside-span' + (':all-nan' if allnan else ''),
+        where = ':leading-midpoint' if i < ext[0][0] else (':trailing-midpoint' if i > ext[-1][0] else '')
+        violation(PROP, 'nan-inside-span' + (':all-nan' if allnan else where),
                   'phase is NaN at sample %d inside the span [%d, %d]%s; %s' % (i, first, last, ' (whole array is NaN)' if allnan else '', desc))
         return
     outside = np.concatenate([pha[:first], pha[last + 1:]])
@@ -122,7 +144,7 @@ def call(sh, n, peaks, troughs, rises, decays, driver, sig=None):
                                        None if rises is None else np.asarray(rises, dtype=int),
                                        None if decays is None else np.asarray(decays, dtype=int))
     except Exception as e:
-        okq, _ = in_quantifier(n, [int(v) for v in peaks], [int(v) for v in troughs],
+        okq, _, _ = in_quantifier(n, [int(v) for v in peaks], [int(v) for v in troughs],
                                None if rises is None else [int(v) for v in rises], None if decays is None else [int(v) for v in decays])
         if okq:
             vs.append({'mechanism': attach.exc_mechanism(e), 'message': 'extrema_interpolated_phase raised %r; peaks=%s troughs=%s n=%d'
@@ -151,7 +173,7 @@ def placements(n, kmin=2):
 
 
 def exhaustive(sh, N, cap_prod):
-    tot = nt = partial = 0
+    tot = nt = partial = edge = 0
     pid = 0
     for n in range(3, N + 1):
         for pos in placements(n):
@@ -181,12 +203,30 @@ def exhaustive(sh, N, cap_prod):
                     call(sh, n, peaks, troughs, rises, None, 'exhaustive')        # one family of midpoints only
                     call(sh, n, peaks, troughs, None, decays, 'exhaustive')
                     tot += 3
+                # cyclepoint sets that begin and / or end with a midpoint (every position before the first / after the last
+                # extremum), with the interior midpoints at three representative positions per flank
+                reps = [tuple(c[0] for c in choices), tuple(c[len(c) // 2] for c in choices), tuple(c[-1] for c in choices)]
+                for lead in [None] + list(range(0, pos[0])):
+                    for trail in [None] + list(range(pos[-1] + 1, n)):
+                        if lead is None and trail is None:
+                            continue
+                        for combo in (reps if len(pos) <= 4 else reps[1:2]):
+                            rises = [m for m, (a, b, kd) in zip(combo, flanks) if kd == 't']
+                            decays = [m for m, (a, b, kd) in zip(combo, flanks) if kd == 'p']
+                            if lead is not None:
+                                (rises if kinds[0] == 'p' else decays).append(lead)
+                            if trail is not None:
+                                (decays if kinds[-1] == 'p' else rises).append(trail)
+                            call(sh, n, peaks, troughs, sorted(rises), sorted(decays), 'exhaustive')
+                            tot += 1
+                            edge += 1
                 if len(peaks) >= 2 and len(troughs) >= 2:
                     nt += 1
                     sh.nontrivial.add('x%d:%d:%s' % (n, pid, first_kind))
     sh.cases += tot
     sh.exhaustive['alternating_placements_gap>=2_len<=%d' % N] = {'cases': tot, 'placements_with_partial_midpoint_enumeration': partial,
-                                                                   'midpoint_product_cap': cap_prod}
+                                                                   'midpoint_product_cap': cap_prod,
+                                                                   'sets_beginning_or_ending_with_a_midpoint': edge}
     sh.samples.append({'n': 9, 'peaks': [1, 6], 'troughs': [3, 8], 'rises': [5], 'decays': [2, 7],
                        'space': 'every alternating placement with gaps >= 2 on arrays up to length %d, midpoints per flank' % N})
 
